@@ -27,7 +27,7 @@ def buf_types(ty):
 
 def check_decrypt_site(prog, body, blk, rep):
     t = blk.term
-    fn = body.key
+    fn = body.nkey
     key = 'R03.1|%s|decrypt' % fn
     loc = body.loc(blk.idx)
     if t.dest is None or t.dest[1]:
@@ -172,8 +172,8 @@ def run(prog, rep, tier):
                     ncallers += 1
                     rep.fn(body)
                     ok = pkg == 'mla' and allowed_callers[d](body)
-                    rep.ob('R03.2', ok, 'R03.2|%s|calls|%s' % (body.key, d),
-                           ('%s calls %s' % (body.key, d)) + ('' if ok else ' -- not in the allowlist: the unauthenticated decrypt path must stay inside the fail-safe reader'),
+                    rep.ob('R03.2', ok, 'R03.2|%s|calls|%s' % (body.nkey, d),
+                           ('%s calls %s' % (body.nkey, d)) + ('' if ok else ' -- not in the allowlist: the unauthenticated decrypt path must stay inside the fail-safe reader'),
                            body.loc(b.idx))
     rep.floor('R03.2', ncallers, 4, 'call sites of the unauthenticated functions')
     # the fail-safe encryption reader is constructed only by ArchiveFailSafeReader::from_config
@@ -185,8 +185,8 @@ def run(prog, rep, tier):
                 if d.endswith('layers::encrypt::EncryptionLayerFailSafeReader::<\'a, R>::new'):
                     nctor += 1
                     ok = pkg == 'mla' and body.defpath.startswith('ArchiveFailSafeReader::<') and body.name == 'from_config'
-                    rep.ob('R03.2', ok, 'R03.2|%s|constructs|EncryptionLayerFailSafeReader' % body.key,
-                           '%s constructs EncryptionLayerFailSafeReader%s' % (body.key, '' if ok else ' -- only ArchiveFailSafeReader::from_config may'),
+                    rep.ob('R03.2', ok, 'R03.2|%s|constructs|EncryptionLayerFailSafeReader' % body.nkey,
+                           '%s constructs EncryptionLayerFailSafeReader%s' % (body.nkey, '' if ok else ' -- only ArchiveFailSafeReader::from_config may'),
                            body.loc(b.idx))
     rep.floor('R03.2.ctor', nctor, 1, 'constructions of EncryptionLayerFailSafeReader')
     # Read/Seek of the internal layer (the normal reader's paths) only call the authenticated functions: implied by the
@@ -212,7 +212,7 @@ def run(prog, rep, tier):
     for body, b in news:
         rep.fn(body)
         t = b.term
-        key = 'R03.3|%s|AesGcm256::new|nonce' % body.key
+        key = 'R03.3|%s|AesGcm256::new|nonce' % body.nkey
         # nonce argument must-derive from a build_nonce call
         bn = []
 
@@ -249,7 +249,7 @@ def run(prog, rep, tier):
                 loads.append((body, b))
     rep.floor('R03.3.load', len(loads), 4, 'chunk load call sites')
     for body, b in loads:
-        key = 'R03.3|%s|%s|counter-set-before-load' % (body.key, b.term.cmethod)
+        key = 'R03.3|%s|%s|counter-set-before-load' % (body.nkey, b.term.cmethod)
         if body.name == 'new':
             # constructor: receiver freshly built by EncryptionLayerInternal::new (counter literal 0 checked above)
             ok = any(c.term.cdef == 'layers::encrypt::EncryptionLayerInternal::<T>::new' and body.dominates(c.idx, b.idx) for c in body.calls())
